@@ -696,7 +696,8 @@ def eval_dyad_maximum(a, b, backend):
                     1.0|1.1  -->  1.1
 
     """
-    return backend.np.maximum(a, b)
+    # element by element through nested (ragged) lists, like the other atomic dyads
+    return backend.vec_fn2(a, b, backend.np.maximum)
 
 
 def eval_dyad_minimum(a, b, backend):
@@ -723,7 +724,8 @@ def eval_dyad_minimum(a, b, backend):
                     1.0&1.1  -->  1.0
 
     """
-    return backend.np.minimum(a, b)
+    # element by element through nested (ragged) lists, like the other atomic dyads
+    return backend.vec_fn2(a, b, backend.np.minimum)
 
 
 def eval_dyad_more(a, b, backend):
